@@ -122,6 +122,29 @@ fn run_seq_odd_names(part: &mut Part, alphabet: Vec<Op>, depth: usize, mons: Vec
     part.bounds = json!({"other_names": b0, "odd_names": part.bounds.clone()});
 }
 
+/// Fourth SEQ pass: the never-created queue has a name longer than 65535 bytes (two variants whose
+/// length, taken modulo 2^16, makes them alias the empty name / the name "x" that queue a carries),
+/// and the alphabet tries to create and delete it.
+fn oversize_name_sets() -> Vec<Vec<String>> {
+    let mut v = vec![];
+    for set in [2u8, 3] {
+        set_name_set(set);
+        v.push(default_names());
+        set_name_set(0);
+    }
+    v
+}
+
+fn run_seq_oversize_names(part: &mut Part, depth: usize, mons: Vec<Monitors>) {
+    let b0 = part.bounds.clone();
+    let mut all = vec![];
+    for names in oversize_name_sets() {
+        all.extend(mons.iter().cloned().map(|m| Monitors { names: Some(names.clone()), ..m }));
+    }
+    run_seq(part, vec![prof("empty x (A_shapes + create/delete of a queue whose name is longer than 65535 bytes)", vec![seed_empty()], a_shapes_oversize(), depth)], all);
+    part.bounds = json!({"other_names": b0, "oversize_names": part.bounds.clone()});
+}
+
 /// The shallow "every seed" profile shared by all properties.
 fn all_seeds_prof(alphabet: Vec<Op>, tiny_depth: usize, q: bool) -> Profile {
     let seeds = if TINY { all_seeds() } else { thin(all_seeds(), 4, q) };
@@ -184,7 +207,8 @@ pub fn run(part: &mut Part) {
             run_seq(part, profiles, vec![mon.clone()]);
             run_seq_long_names(part, a_full(), if TINY { if q { 3 } else { 4 } } else { 1 }, vec![mon.clone()]);
             run_seq_odd_names(part, a_full(), if TINY { 3 } else { 1 }, vec![mon.clone()]);
-            run_seq_odd_names(part, a_shapes(), if TINY { if q { 3 } else { 4 } } else { 2 }, vec![mon]);
+            run_seq_odd_names(part, a_shapes(), if TINY { if q { 3 } else { 4 } } else { 2 }, vec![mon.clone()]);
+            run_seq_oversize_names(part, if TINY { if q { 3 } else { 4 } } else { 2 }, vec![mon]);
             part.rule = "every op sequence of the stated depth over the alphabet, after every seed; after every op the return value is compared with the reference model and, once per distinct prefix, every read accessor for all range-bound shapes; distinct_nontrivial = distinct (model state, outcome) pairs at which the full accessor comparison ran".into();
             if TINY {
                 part.require_outcomes(&["ring_wrapped_reads", "err-past", "append-noop", "err-missing", "err-exists", "truncated-n"]);
@@ -247,7 +271,8 @@ pub fn run(part: &mut Part) {
             run_seq(part, lprofiles, vec![lmon.clone()]);
             part.bounds = json!({"short_names": b0, "long_names": part.bounds.clone()});
             run_seq_odd_names(part, a_roll(), if TINY { if q { 3 } else { 4 } } else { 2 }, vec![lmon.clone()]);
-            run_seq_odd_names(part, a_shapes(), if TINY { if q { 3 } else { 4 } } else { 2 }, vec![lmon]);
+            run_seq_odd_names(part, a_shapes(), if TINY { if q { 3 } else { 4 } } else { 2 }, vec![lmon.clone()]);
+            run_seq_oversize_names(part, if TINY { if q { 3 } else { 4 } } else { 2 }, vec![lmon]);
             part.rule = "every op sequence of the stated depth over the alphabet (Reopen = clean drop + open is a letter, so restarts are inserted at every point), after every seed, for each hasher seed; the observable state (queue set, positions, payload bytes, next position) is compared with the reference model after every Reopen and after a final Reopen, followed by one auto append per queue; distinct_nontrivial = distinct (model state, number of WAL files, seed) at which a restart was checked".into();
             part.require_outcomes(&["restarts_checked", "reopened", "deleted", "truncated-n"]);
         }
@@ -278,6 +303,7 @@ pub fn run(part: &mut Part) {
             part.extra.insert("hash_seed_orders".into(), json!(seeds_hash));
             run_seq(part, profiles, mons.clone());
             run_seq_odd_names(part, a_shapes(), if TINY { if q { 3 } else { 4 } } else { 2 }, vec![mons[0].clone()]);
+            run_seq_oversize_names(part, if TINY { if q { 3 } else { 4 } } else { 2 }, vec![mons[0].clone()]);
             // crash part: after recovery from any crash point no position handed out or truncated-to
             // by a completed call may be reachable again
             let mut cseeds = vec![seed_empty_old(), seed_gc_ready(), seed_two_files(), seed_future()];
@@ -345,7 +371,8 @@ pub fn run(part: &mut Part) {
             ];
             run_seq(part, profiles, mons.clone());
             run_seq_long_names(part, a_full(), if TINY { if q { 2 } else { 3 } } else { 1 }, mons.clone());
-            run_seq_odd_names(part, a_shapes(), if TINY { if q { 2 } else { 3 } } else { 1 }, mons);
+            run_seq_odd_names(part, a_shapes(), if TINY { if q { 2 } else { 3 } } else { 1 }, mons.clone());
+            run_seq_oversize_names(part, if TINY { if q { 2 } else { 3 } } else { 1 }, mons);
             part.rule = "every op sequence of the stated depth over A_full (which contains every rejected / no-op call shape, on existing and missing queues); for every call the model rejects or acknowledges as a no-op: the I/O + frame trace of the call has no write/create/set_len/unlink/frame event, wal_bytes_written is 0, the observable state and (once per prefix) the flushed WAL file bytes are unchanged; at the end the history is re-run without those calls and both directories are reopened and compared; policies Always(Flush) and DoNothing".into();
             part.require_outcomes(&["rejected_or_noop_calls_checked", "err-past", "append-noop", "err-missing", "err-exists", "restart_comparisons_with_vs_without_rejected_calls"]);
         }
@@ -605,6 +632,17 @@ pub fn run(part: &mut Part) {
             let descr: Vec<_> = profiles.iter().map(|p| p.describe()).collect();
             let stats = explore(&profiles, part.seed, |env, leaf| c18_leaf(env, leaf));
             part.stats.merge(stats);
+            // a third queue whose name is longer than 65535 bytes (aliasing, modulo 2^16, the name
+            // of queue a): calls addressed to it must not change a or b either
+            for set in [2u8, 3] {
+                let oprofiles = vec![prof("empty x (A_shapes + create/delete of a queue with a name longer than 65535 bytes)", vec![seed_empty()], a_shapes_oversize(), if TINY { if q { 3 } else { 4 } } else { 2 })];
+                let stats = explore(&oprofiles, part.seed, |env, leaf| {
+                    set_name_set(set);
+                    c18_leaf(env, leaf);
+                    set_name_set(0);
+                });
+                part.stats.merge(stats);
+            }
             // crash variant: every crash point inside the last call of the history, when that call
             // is addressed to the other queue
             let mut cseeds = vec![seed_ab(), seed_two_files(), seed_interleaved()];
@@ -811,7 +849,18 @@ pub fn replay(path: &str) -> i32 {
     let hash_seed = case["hash_seed"].as_u64().unwrap_or(0);
     match engine.as_str() {
         "seq" => match monitors_for(&property, policy, hash_seed) {
-            Some(mon) => run_leaf(&mut env, &leaf, &mon),
+            Some(mut mon) => {
+                if let Some(arr) = case["names"].as_array() {
+                    let mut names = default_names();
+                    for (i, n) in arr.iter().enumerate() {
+                        if let Some(n) = n.as_str() {
+                            names[i] = n.to_string();
+                        }
+                    }
+                    mon.names = Some(names);
+                }
+                run_leaf(&mut env, &leaf, &mon)
+            }
             None => {
                 eprintln!("no sequential monitor for {}", property);
                 return 2;
